@@ -106,7 +106,9 @@ struct Agg {
     shapes: BTreeSet<u64>,
     shapes_nontrivial: BTreeSet<u64>,
     hits: Vec<(u64, usize, driver::Violation)>, // (seed index, round, violation) for the checked property
+    /// violations of other properties seen on the way that no known finding lists
     other_props: BTreeMap<&'static str, u64>,
+    other_props_listed: BTreeMap<&'static str, u64>,
     samples: Vec<serde_json::Value>,
     determinism_checked: u64,
     determinism_mismatch: u64,
@@ -157,6 +159,8 @@ fn run_batch(prop: &str, thorough: bool, base_seed: u64, count: u64, wall_cap_s:
     let gp = gen::params_for(prop, thorough);
     let corpus = load_corpus();
     let corpus = &corpus;
+    let known = load_known();
+    let known = &known;
     let next = AtomicU64::new(0);
     let stop = AtomicBool::new(false);
     let t0 = Instant::now();
@@ -181,6 +185,7 @@ fn run_batch(prop: &str, thorough: bool, base_seed: u64, count: u64, wall_cap_s:
                             shapes_nontrivial: BTreeSet::new(),
                             hits: Vec::new(),
                             other_props: BTreeMap::new(),
+                            other_props_listed: BTreeMap::new(),
                             samples: Vec::new(),
                             determinism_checked: 0,
                             determinism_mismatch: 0,
@@ -215,6 +220,8 @@ fn run_batch(prop: &str, thorough: bool, base_seed: u64, count: u64, wall_cap_s:
                             for (r, vi) in rep.violations.iter() {
                                 if vi.prop == opts.prop {
                                     a.hits.push((i, *r, vi.clone()));
+                                } else if known.findings.iter().any(|k| matches_known(k, vi.prop, vi, &sc, *r)) {
+                                    *a.other_props_listed.entry(vi.prop).or_insert(0) += 1;
                                 } else {
                                     *a.other_props.entry(vi.prop).or_insert(0) += 1;
                                 }
@@ -240,6 +247,9 @@ fn run_batch(prop: &str, thorough: bool, base_seed: u64, count: u64, wall_cap_s:
         total.hits.extend(a.hits);
         for (k, n) in a.other_props {
             *total.other_props.entry(k).or_insert(0) += n;
+        }
+        for (k, n) in a.other_props_listed {
+            *total.other_props_listed.entry(k).or_insert(0) += n;
         }
         total.samples.extend(a.samples);
         total.determinism_checked += a.determinism_checked;
@@ -395,8 +405,8 @@ fn cmd_check(prop: &str, tier: &str) -> i32 {
     }
     write_evidence(prop, tier, base_seed, &agg, wall, capped, count, by_sig.len() as u64, &known_lines, &replay_paths, threads);
     println!(
-        "{} {}: scenarios={} evaluations={} calls={} wall={:.1}s violations(unlisted)={} known-finding-signatures={} other-property-violations-seen={:?}",
-        prop, tier, agg.scenarios, agg.rep.evaluations, agg.rep.engine_calls, wall, replay_paths.len(), known_lines.len(), agg.other_props
+        "{} {}: scenarios={} evaluations={} calls={} wall={:.1}s violations(unlisted)={} known-finding-signatures={} other-property-violations-seen(unlisted)={:?} (listed as known findings)={:?}",
+        prop, tier, agg.scenarios, agg.rep.evaluations, agg.rep.engine_calls, wall, replay_paths.len(), known_lines.len(), agg.other_props, agg.other_props_listed
     );
     if !agg.hits.is_empty() {
         // sensitivity figures (used by tools/regress_seeded.sh): how many scenarios hit, and how early
@@ -451,6 +461,7 @@ fn write_evidence(
             "known_findings_hit": known_lines,
             "replay_files": replays,
             "violations_of_other_properties_seen": agg.other_props,
+            "violations_of_other_properties_seen_listed_as_known_findings": agg.other_props_listed,
             "determinism_sample": {"re_executed": agg.determinism_checked, "mismatches": agg.determinism_mismatch},
             "threads": threads,
             "components": {
